@@ -19,9 +19,14 @@ def spellings(v):
         out.append('-%d' % (-v))
     else:
         out.append(str(v))
-    if u != 0:
-        out.append('-%d' % ((1 << 32) - u))     # unary minus on unsigned wraps
     return sorted(set(out))
+
+
+def odd_spelling(v):
+    """'-n' with n above 2^31: unary minus on the lexer's unsigned value wraps (model and code must agree; not one of
+    the property's two spellings, so kept in sources of its own)"""
+    u = v & 0xffffffff
+    return '-%d' % ((1 << 32) - u) if u != 0 else None
 
 
 def main():
@@ -58,6 +63,9 @@ def main():
                 src.append('%s %s' % (mn, sp))
                 allv.append((mn, v))
             cases.append({'src': ('\n'.join(src) + '\n').encode(), 'items': items, 'tag': 'imm'})
+    for mn in A.IMM:
+        vs = [v for v in rng.sample(vals, min(len(vals), 48)) if odd_spelling(v)]
+        cases.append({'src': ('\n'.join('%s %s' % (mn, odd_spelling(v)) for v in vs) + '\n').encode(), 'items': [('imm', mn, v) for v in vs], 'tag': 'oddspelling'})
     # literals beyond 32 and 64 bits are truncated by the lexer (strtoul saturation, unsigned truncation): model must agree; value = what the model's front end says
     big = ['4294967296', '4294967297', '18446744073709551615', '18446744073709551616', '99999999999999999999999', '-4294967296', '-4294967295']
     for lit in big:
@@ -72,7 +80,20 @@ def main():
     cases, hv, d = r
     ncorr = A.correspondence(ck, cases)
     ocases, oidx = [], []
+    nrej = 0
     for i, c in enumerate(cases):
+        if c['real']['status'] == 'ok' and not c['accept'] and c.get('items') is not None and c['tag'] in ('imm', 'replay'):
+            # every operand of these sources is representable in 32 bits: a diagnostic means no bytes for that value
+            first = (c['real']['lines'] or ['?'])[0]
+            import re as _re
+            m = _re.search(r'line (\d+)', first)
+            lines = c['src'].decode('latin1').split('\n')
+            culprit = lines[int(m.group(1))] if m and int(m.group(1)) < len(lines) else lines[0]
+            nrej += 1
+            if nrej <= 3:
+                ck.violation('hexasm rejects an operand that is representable in 32 bits: %r -> %s' % (culprit, first[:160]),
+                             {'source': culprit + '\n', 'full_source': c['src'].decode('latin1'), 'diagnostic': first}, tags={'kind': 'rejected-operand'})
+            continue
         if c['real']['status'] != 'ok':
             ck.violation('hexasm %s (sanitizer/signal) on immediates: %s' % (c['real']['status'], c['real'].get('detail', '')[-300:]),
                          {'source': c['src'].decode('latin1'), 'detail': c['real'].get('detail')},
